@@ -17,7 +17,7 @@ SHARDS = {"quick": 12, "thorough": 16}
 WATCHDOG = {"quick": 1500, "thorough": 3300}
 REQUIRED_CLASSES = {t: ["analyzer:Elementary", "analyzer:Probit", "analyzer:MaxLikeInf", "analyzer:MaxLikeFull", "relation:load_scaling",
                         "relation:cycle_scaling", "relation:row_permutation", "exact_basquin_data", "data:runouts_on_several_levels",
-                        "data:fracture_below_highest_runout"]
+                        "data:fracture_below_highest_runout", "data:pure_fracture_level_below_highest_runout"]
                     for t in ("quick", "thorough")}
 REQUIRED_MONITORS = ["load_scaling:SD*c,rest_unchanged", "cycle_scaling:ND*c,rest_unchanged", "row_permutation:identical",
                      "exact_data:k_1_exact", "exact_data:TN==TS==1", "zones_partition_at_transition", "loglik(MaxLike)>=loglik(Elementary)", "likelihood_equivariant"]
@@ -75,6 +75,7 @@ def dataset(rng, exact=False):
         for _ in range(int(rng.integers(2, 5))):
             N = ND * (L / SD) ** (-k) * 10 ** (rng.normal(0, sN) if sN else 0.0)
             rows.append((float(L), float(min(N, lim * 0.9)), True))
+    masks = []
     for L in inf:
         m = int(rng.integers(3, 7))
         # probability of fracture at this level from the strength scatter
@@ -84,6 +85,16 @@ def dataset(rng, exact=False):
             fr[0] = False
         if not fr.any():
             fr[0] = True
+        masks.append(fr)
+    if ni >= 3 and rng.random() < 0.5:
+        # a level on which every specimen broke although specimens survive higher up (early failures)
+        masks[int(rng.integers(0, ni - 2))][:] = True
+    if sum(int(fr.sum()) for fr in masks) < 3:
+        # the maximum likelihood analyzers demand three fractures in the infinite zone (ValueError otherwise):
+        # every level has at least three tests, so one more fracture still leaves it a run-out
+        fr = masks[-1]
+        fr[int(np.flatnonzero(~fr)[0])] = True
+    for L, fr in zip(inf, masks):
         for f in fr:
             if f:
                 N = ND * (L / SD) ** (-k) * 10 ** (rng.normal(0, sN) if sN else 0.0)
@@ -134,6 +145,8 @@ def run_case(case, ctx):
     ro = df[~df.fracture]
     if (df[df.fracture].load < ro.load.max()).any():
         ctx.tag("data:fracture_below_highest_runout")
+    if len(np.setdiff1d(df[df.fracture & (df.load < ro.load.max())].load.unique(), ro.load.unique())):
+        ctx.tag("data:pure_fracture_level_below_highest_runout")
     # zones partition the tests at the reported transition
     fd = df.copy().fatigue_data
     fz, iz, tr = fd.finite_zone, fd.infinite_zone, float(fd.finite_infinite_transition)
@@ -149,7 +162,14 @@ def run_case(case, ctx):
     perm = rng.permutation(len(df))
     for name in names:
         ctx.tag("analyzer:" + name)
-        base = analyze(name, df)
+        try:
+            base = analyze(name, df)
+        except ValueError as e:
+            if str(e).startswith("MaxLikeHood: need at least"):
+                # the analyzer's documented admissibility guard: such data are outside the property's quantifier
+                ctx.skip("inadmissible_for_" + name)
+                continue
+            raise
         exact_method = name in ("Elementary", "Probit")
         mech = ["c18_scatter_free_data_pearl_chain_regression_on_rounding_noise"] if case["exact"] else []
         if case["exact"]:
